@@ -104,7 +104,7 @@ import json, sys
 path, summary, first, last, rate, wall, total, viol = sys.argv[1:9]
 e = json.load(open(path))
 e["coverage"]["miri_slice"] = {
-  "what": "frmiri (3 caller threads, shared Arc<Regex> + one clone made concurrently, 2 API calls each, self-reference oracle) interpreted by Miri: seeded scheduler preempting at basic-block granularity, data-race and aliasing detector on",
+  "what": "frmiri (scenarios 0-3: 3 caller threads, shared Arc<Regex> + one clone made concurrently, 4 API calls each; 4: handles and results of one regex family dropped on different threads; 5: every thread replaces and expands with its own $-template; self-reference oracle) interpreted by Miri: seeded scheduler preempting at basic-block granularity, data-race and aliasing detector on",
   "seeds": f"{first}..{last} per scenario", "preemption_rate": rate,
   "scenarios": json.loads(summary), "executions": int(total), "wall_s": float(wall),
   "real_vs_stub": {"real": ["fancy_regex as shipped (default-features off, std on: no hooks)", "regex-automata incl. its cache pool"], "stubbed": ["the OS scheduler and the CPU: replaced by Miri's interpreter and its seeded scheduler"]},
